@@ -329,4 +329,19 @@ C18_Holds(c, in, o) ==
     [] c = "no-dangling-method" -> in.kind = "cfgoff" /\ in.place \in {"modfn", "implfn", "traitmethod"} => o.compiled
     [] c = "compiles" -> in.kind # "cfgoff" => o.compiled
 C18_Fail(in, o) == { c \in C18_Conj : ~C18_Holds(c, in, o) }
+
+(***************************************************************************)
+(* C19  Generated code is self-contained: no imports, no std, no name      *)
+(*      capture.  For a program placed in a hostile scope (nothing         *)
+(*      imported, a set of names shadowed, possibly a generated trait      *)
+(*      named like a marker trait, possibly a no_std crate):               *)
+(*   o : [compiled, sameresult / sameavail: run-time result and trait      *)
+(*        availability equal to the clean-scope run of the same program    *)
+(*        (TRUE when the variant is compile-only)]                         *)
+(***************************************************************************)
+C19_Conj == {"compiles-in-hostile-scope", "means-the-same"}
+C19_Holds(c, o) ==
+  CASE c = "compiles-in-hostile-scope" -> o.compiled
+    [] c = "means-the-same" -> o.compiled => o.sameresult /\ o.sameavail
+C19_Fail(o) == { c \in C19_Conj : ~C19_Holds(c, o) }
 =============================================================================
